@@ -51,6 +51,10 @@ class Lin:
         return " + ".join([f"Σ{k}[{v}]" for k, v in self.sums.items() if sp.simplify(v) != 0] + ([str(self.scalar)] if self.scalar != 0 else [])) or "0"
 
 
+class UnknownOperator(Exception):
+    """an operator the column algebra has no meaning for: the analysis cannot decide (never a verdict)"""
+
+
 class SeriesAlgebra:
     def __init__(self, bases, scalars=(), per_hedge=()):
         self.bases = {b: sp.Function(b) for b in bases}  # (N,H,T) series
@@ -70,7 +74,7 @@ class SeriesAlgebra:
             raise KeyError(t.name)
         f = getattr(self, "s_" + t.op, None)
         if f is None:
-            raise NotImplementedError(t.op)
+            raise UnknownOperator(t.op)
         return f(t, *t.args)
 
     def s_index(self, t, x, idx):
@@ -175,6 +179,11 @@ class SeriesAlgebra:
 
     def s_tensor(self, t, x, *r):
         return self.ev(x)
+
+    s_as_tensor = s_tensor
+
+    def s_new_tensor(self, t, x, data, *r):
+        return self.ev(data)  # x.new_tensor(data): the values of `data` in the dtype of x
 
     def s_unsqueeze(self, t, x, d):
         v = self.ev(x)
